@@ -3,7 +3,7 @@
 # (in a scratch worktree of /repo via PAULIE_REPO, so /repo itself stays untouched); prints caught / MISSED
 cd "$(dirname "$0")/.."
 IDS="$@"; [ -z "$IDS" ] && IDS=$(ls seeded)
-W=/tmp/rs_worktree
+W=${RS_W:-/tmp/rs_worktree}
 for id in $IDS; do
   P=$(python3 -c "import json;print(json.load(open('seeded/$id/meta.json'))['property'])")
   rm -rf $W; git -C /repo worktree prune; git -C /repo worktree add --detach $W HEAD >/dev/null 2>&1
@@ -19,4 +19,5 @@ PY
   git -C /repo worktree remove --force $W
 done
 # restore evidence of the unchanged tree for the properties touched
+[ -n "$RS_NOCLEAN" ] && exit 0
 for P in $(for id in $IDS; do python3 -c "import json;print(json.load(open('seeded/$id/meta.json'))['property'])"; done | sort -u); do ./check $P --tier quick >/dev/null 2>&1 || echo "clean tree: $P rc=$?"; done
